@@ -372,7 +372,14 @@ class GenericType(Type):
 
 	@property
 	def primary_type(self) -> Type:
-		return self.sub_types[0]
+		return self._sub_type_at(0)
+
+	def _sub_type_at(self, index: int) -> Type:
+		sub_types = self.sub_types
+		if index >= len(sub_types):
+			raise Errors.NodeNotFound(self, index)
+
+		return sub_types[index]
 
 
 @Meta.embed(Node)
@@ -398,7 +405,7 @@ class DictType(GenericType):
 	@property
 	@Meta.embed(Node, expandable)
 	def key_type(self) -> Type:
-		return self.sub_types[0]
+		return self._sub_type_at(0)
 
 	@property
 	@Meta.embed(Node, expandable)
@@ -409,7 +416,7 @@ class DictType(GenericType):
 	@override
 	def primary_type(self) -> Type:
 		"""Note: XXX value_typeをprimaryとするためoverride"""
-		return self.sub_types[1]
+		return self._sub_type_at(1)
 
 
 @Meta.embed(Node)
